@@ -21,7 +21,7 @@ import (
 func TestMain(m *testing.M) { vfx.Main(m) }
 
 type Mod struct {
-	Kind  string // identity | bitflip | setbyte | truncate | extend | splice | header-label | aad-label | foreign-key | removed-key | removed-key-midstream | key-added-midstream | unknown-key-added | secondary-key | plaintext | double-seal
+	Kind  string // identity | bitflip | setbyte | truncate | extend | splice | header-label | aad-label | foreign-cluster | foreign-key | removed-key | removed-key-midstream | key-added-midstream | unknown-key-added | secondary-key | plaintext | double-seal
 	Pos   int    `json:",omitempty"` // per-mille of the length (bitflip/setbyte/truncate/splice)
 	Field string `json:",omitempty"` // bitflip target: any | version | nonce | body | tag | lenprefix | typebyte | label
 	Bit   int    `json:",omitempty"`
@@ -35,6 +35,7 @@ type Plan struct {
 	Seed  uint64
 	Label string
 	PV    uint8 // 1: encryption version 0, otherwise 1
+	Skip  bool  `json:",omitempty"` // the receiver's inbound label check is delegated (SkipInboundLabelCheck): genuine traffic arrives WITHOUT a header, sealed with the label as associated data; anything that still carries a header must be dropped
 	G     int
 	Mod   Mod
 }
@@ -44,7 +45,8 @@ var corpus = hostile.Corpus()
 func genPlan(t *rapid.T) Plan {
 	p := Plan{Seed: 1, Label: rapid.SampledFrom([]string{"", "lbl"}).Draw(t, "label"), PV: uint8(rapid.SampledFrom([]int{2, 2, 1}).Draw(t, "pv")),
 		G: rapid.IntRange(0, len(corpus)-1).Draw(t, "g")}
-	m := Mod{Kind: rapid.SampledFrom([]string{"bitflip", "bitflip", "bitflip", "bitflip", "setbyte", "truncate", "extend", "splice", "header-label", "aad-label",
+	p.Skip = p.Label != "" && rapid.IntRange(0, 2).Draw(t, "skip") == 0
+	m := Mod{Kind: rapid.SampledFrom([]string{"bitflip", "bitflip", "bitflip", "bitflip", "setbyte", "truncate", "extend", "splice", "header-label", "aad-label", "foreign-cluster",
 		"foreign-key", "removed-key", "removed-key-midstream", "removed-key-midstream", "key-added-midstream", "unknown-key-added", "secondary-key", "plaintext", "double-seal", "identity", "version-flip", "version-flip"}).Draw(t, "mod")}
 	m.Pos = rapid.IntRange(0, 999).Draw(t, "pos")
 	m.Field = rapid.SampledFrom([]string{"any", "version", "nonce", "body", "tag", "lenprefix", "typebyte", "label"}).Draw(t, "field")
@@ -76,7 +78,7 @@ func deliver(pl Plan, raw []byte, stream bool, prep func(w *hostile.World)) (o h
 	split, mid := midSplit, midOp
 	midSplit, midOp = -1, nil
 	synctest.Test(theT, func(t *testing.T) {
-		w, e := hostile.NewWorld(pl.Seed, hostile.Cfg{Label: pl.Label, Encrypt: true, PV: pl.PV})
+		w, e := hostile.NewWorld(pl.Seed, hostile.Cfg{Label: pl.Label, Encrypt: true, PV: pl.PV, Skip: pl.Skip})
 		if e != nil {
 			err = e
 			return
@@ -143,9 +145,13 @@ func runPlan(pl Plan) (res vfx.Result) {
 		}
 		return wire.LabelWrap(b, hdr)
 	}
-	genuine := seal(g.Plain, g.Stream, hostile.KeyA, vsn, pl.Label, pl.Label, 7)
-	lay := layoutOf(genuine, pl.Label, g.Stream)
-	ck := cacheKey{pl.Label, pl.PV, pl.G, false}
+	hdr, ckLabel := pl.Label, pl.Label
+	if pl.Skip {
+		hdr, ckLabel = "", pl.Label+"|skip"
+	}
+	genuine := seal(g.Plain, g.Stream, hostile.KeyA, vsn, pl.Label, hdr, 7)
+	lay := layoutOf(genuine, hdr, g.Stream)
+	ck := cacheKey{ckLabel, pl.PV, pl.G, false}
 	oNothing, ok := cache[ck]
 	if !ok {
 		o, err := deliver(pl, nil, false, nil)
@@ -241,7 +247,7 @@ func runPlan(pl Plan) (res vfx.Result) {
 		if o.Stream != g.Stream {
 			o = g
 		}
-		other := seal(o.Plain, o.Stream, hostile.KeyA, vsn, pl.Label, pl.Label, 9)
+		other := seal(o.Plain, o.Stream, hostile.KeyA, vsn, pl.Label, hdr, 9)
 		cut := lay.body + m.Pos*(lay.tag-lay.body)/1000
 		if cut > len(other) {
 			cut = len(other)
@@ -254,7 +260,11 @@ func runPlan(pl Plan) (res vfx.Result) {
 	case "header-label":
 		// same ciphertext under another (or no, or an added) label header
 		body := genuine[lay.hdr:]
-		if m.Label == pl.Label {
+		if pl.Skip {
+			if m.Label == "" {
+				m.Label = pl.Label // even the node's own label: a header that is still attached was not checked by anybody
+			}
+		} else if m.Label == pl.Label {
 			m.Label = pl.Label + "x"
 		}
 		mod = wire.LabelWrap(append([]byte(nil), body...), m.Label)
@@ -264,14 +274,24 @@ func runPlan(pl Plan) (res vfx.Result) {
 		if m.Label == pl.Label {
 			m.Label = pl.Label + "x"
 		}
-		mod = seal(g.Plain, g.Stream, hostile.KeyA, vsn, m.Label, pl.Label, 7)
+		mod = seal(g.Plain, g.Stream, hostile.KeyA, vsn, m.Label, hdr, 7)
 		mustBeNothing = true
 		desc = fmt.Sprintf("sealed with associated label %q under header %q", m.Label, pl.Label)
+	case "foreign-cluster":
+		// genuine traffic of another logical cluster that shares the key: sealed with ITS label as associated data and
+		// carrying ITS header, replayed unchanged
+		lbl := m.Label
+		if lbl == "" || lbl == pl.Label {
+			lbl = pl.Label + "x"
+		}
+		mod = seal(g.Plain, g.Stream, hostile.KeyA, vsn, lbl, lbl, 7)
+		mustBeNothing = true
+		desc = fmt.Sprintf("traffic of cluster %q (header and associated data) replayed to %q", lbl, pl.Label)
 	case "foreign-key":
-		mod = seal(g.Plain, g.Stream, hostile.KeyForeign, vsn, pl.Label, pl.Label, 7)
+		mod = seal(g.Plain, g.Stream, hostile.KeyForeign, vsn, pl.Label, hdr, 7)
 		mustBeNothing = true
 	case "removed-key":
-		mod = seal(g.Plain, g.Stream, hostile.KeyB, vsn, pl.Label, pl.Label, 7)
+		mod = seal(g.Plain, g.Stream, hostile.KeyB, vsn, pl.Label, hdr, 7)
 		prep = func(w *hostile.World) {
 			if err := w.P.MC.Keyring.RemoveKey(hostile.KeyB); err != nil {
 				panic(err)
@@ -285,7 +305,7 @@ func runPlan(pl Plan) (res vfx.Result) {
 		if m.Kind == "key-added-midstream" {
 			k, op = hostile.KeyForeign, "installed"
 		}
-		mod = seal(g.Plain, g.Stream, k, vsn, pl.Label, pl.Label, 7)
+		mod = seal(g.Plain, g.Stream, k, vsn, pl.Label, hdr, 7)
 		kk := k
 		if !g.Stream {
 			// packets arrive whole: the operation precedes the delivery
@@ -311,23 +331,26 @@ func runPlan(pl Plan) (res vfx.Result) {
 		mustBeNothing = op == "removed"
 	case "unknown-key-added":
 		// sealed under a key that is installed only after sealing: may be accepted (then exactly as genuine)
-		mod = seal(g.Plain, g.Stream, hostile.KeyForeign, vsn, pl.Label, pl.Label, 7)
+		mod = seal(g.Plain, g.Stream, hostile.KeyForeign, vsn, pl.Label, hdr, 7)
 		prep = func(w *hostile.World) {
 			if err := w.P.MC.Keyring.AddKey(hostile.KeyForeign); err != nil {
 				panic(err)
 			}
 		}
 	case "secondary-key":
-		mod = seal(g.Plain, g.Stream, hostile.KeyB, vsn, pl.Label, pl.Label, 7)
+		mod = seal(g.Plain, g.Stream, hostile.KeyB, vsn, pl.Label, hdr, 7)
 	case "plaintext":
-		mod = wire.LabelWrap(append([]byte(nil), g.Plain...), pl.Label)
+		mod = wire.LabelWrap(append([]byte(nil), g.Plain...), hdr)
 		mustBeNothing = true
 	case "double-seal":
 		inner := seal(g.Plain, g.Stream, hostile.KeyA, vsn, pl.Label, "", 7)
-		mod = seal(inner, g.Stream, hostile.KeyA, vsn, pl.Label, pl.Label, 8)
+		mod = seal(inner, g.Stream, hostile.KeyA, vsn, pl.Label, hdr, 8)
 		mustBeNothing = false
 	}
 	res.Labels = []string{"mod:" + m.Kind, "msg:" + g.Name, fmt.Sprintf("encvsn=%d", vsn)}
+	if pl.Skip {
+		res.Labels = append(res.Labels, "receiver-skips-label-check", "skip|mod:"+m.Kind)
+	}
 	if m.Kind == "bitflip" || m.Kind == "setbyte" {
 		res.Labels = append(res.Labels, "field:"+m.Field)
 	}
